@@ -212,6 +212,41 @@ func TestVF_C02_Cluster(t *testing.T) {
 		}})
 }
 
+var famE6C08 = set("log-compacted-beyond-durable-snapshot", "restart-failed", "restart-panics-commit-outside-log-range",
+	"replica-state-differs-at-same-index", "snapshot-content-not-at-snapshot-index", "update-index-not-increasing",
+	"ondisk-update-at-or-below-open-index", "replicas-applied-different-entries", "completed-request-never-applied")
+
+// C08 end to end: snapshots taken while entries keep being applied (concurrent and
+// on-disk state machines, slow SaveSnapshot), small compaction overhead, replicas
+// restarted from their own snapshots and lagging followers brought back by the
+// leader's snapshot; the log store monitor checks every compaction request against
+// the newest snapshot durably recorded.
+func TestVF_C08_Cluster(t *testing.T) {
+	runE6(t, e6Profile{prop: "C08", family: famE6C08,
+		tune: func(t *rapid.T, p *Plan) {
+			p.ReadPct = 10
+			p.SnapEntries = uint64(3 + vfhelp.PickN(t, "snapentries2", 6))
+			p.Overhead = uint64(1 + vfhelp.PickN(t, "overhead", 4))
+			p.OpsPerCli += 10
+			if vfhelp.Pick(t, "slowsnap", 1) == 1 {
+				p.SlowSnapMs = 5 + vfhelp.PickN(t, "slowsnapms", 30)
+			}
+			a := vfhelp.Pick(t, "lag", 2)
+			p.Faults = append(p.Faults,
+				Fault{Kind: FSnapshot, A: vfhelp.Pick(t, "ss", 2), AfterMs: 5 + vfhelp.PickN(t, "ssafter", 30)},
+				Fault{Kind: FIsolate, A: a, AfterMs: 5 + vfhelp.PickN(t, "lagafter", 30)},
+				Fault{Kind: FSnapshot, A: a + 1, AfterMs: 30 + vfhelp.PickN(t, "ss2after", 40)},
+				Fault{Kind: FHeal, AfterMs: 10 + vfhelp.PickN(t, "healafter", 40)},
+				Fault{Kind: FStopReplica, A: vfhelp.Pick(t, "sr", 2), B: vfhelp.Pick(t, "srb", 3), AfterMs: 10 + vfhelp.PickN(t, "srafter", 40)},
+				Fault{Kind: FPowerCut, A: vfhelp.Pick(t, "pch", 2), AfterMs: 10 + vfhelp.PickN(t, "pcafter", 40)},
+				Fault{Kind: FRestart, AfterMs: 20 + vfhelp.PickN(t, "rsafter", 60)})
+		},
+		rule: "non-trivial = >= 1 snapshot was saved, the log was compacted and a replica was afterwards rebuilt from a snapshot (restart or install)",
+		nontriv: func(res *Result) bool {
+			return res.Rec.CallCount["RecoverFromSnapshot"]+res.Rec.CallCount["Open"] > 0 && len(res.Rec.Created) > 0 && res.Flags["restart"]+res.Flags["replica-stopped"] > 0
+		}})
+}
+
 // C06 end to end: many overlapping ReadIndex requests (local and via followers /
 // non-voting replicas) racing with writes, leader changes and partitions.
 func TestVF_C06_Cluster(t *testing.T) {
